@@ -16,10 +16,10 @@ Rec == ndJsonDeserialize(IOEnv.TRACE)
 VARIABLE s
 vars == <<s>>
 
-NoScn == [id |-> -1, kind |-> "none", cfg |-> [iface |-> "rec"], fault |-> [call |-> 0, k |-> 0, effect |-> FALSE],
+NoScn == [id |-> -1, kind |-> "none", cfg |-> [iface |-> "rec"], faults |-> <<>>,
           tag |-> "", ncalls |-> 0]
 D0 == [alive |-> FALSE, orient |-> [rot |-> 0, mir |-> FALSE], sleeping |-> FALSE, reoriented |-> FALSE,
-       faulted |-> FALSE, skip |-> FALSE, ncall |-> 0]
+       faulted |-> FALSE, skip |-> FALSE, ncall |-> 0, slpUnknown |-> FALSE]
 Stat0 == [calls |-> 0, scn |-> 0, painted |-> 0, faults |-> 0, oob |-> 0, wireops |-> 0, done |-> 0]
 
 Init == s = [l |-> 1, sc |-> NoScn, w |-> WireNew(1, 1, "rec", FALSE, FALSE), d |-> D0, img |-> <<>>,
@@ -124,7 +124,8 @@ ArgsInBounds(sc, d, r) ==
     [] n \in {"fill_solid", "fill_contiguous"} -> RectInBox(cfg, o, a.rect)
     [] OTHER -> TRUE
 
-FaultHere(sc, r) == sc.fault.call = r.i /\ sc.fault.k >= 1 /\ sc.fault.k <= r.nf
+FaultHere(sc, r) == \E j \in 1 .. Len(sc.faults) : sc.faults[j].call = r.i /\ sc.faults[j].k >= 1 /\ sc.faults[j].k <= r.nf
+FaultK(sc, r) == LET j == CHOOSE j \in 1 .. Len(sc.faults) : sc.faults[j].call = r.i IN sc.faults[j].k
 
 JudgeDrawing(sc, d, img, w0, w1, r) ==
   LET cfg == sc.cfg
@@ -138,7 +139,8 @@ JudgeDrawing(sc, d, img, w0, w1, r) ==
              (IF n = "draw_iter" /\ inb THEN {"C03"} ELSE {}) \cup
              (IF n = "fill_contiguous" THEN {"C04"} ELSE {}) \cup
              (IF d.reoriented THEN {"C10"} ELSE {}) \cup
-             (IF d.faulted THEN {"C12"} ELSE {})
+             (IF d.faulted THEN {"C12"} ELSE {}) \cup
+             (IF cfg.iface = "spi" THEN {"C06"} ELSE IF cfg.iface \in {"p8", "p16"} THEN {"C07"} ELSE {})
       newflags == w1.ctl.flags \ w0.ctl.flags
       wpp == WordsPerPixel(w1.ctl)
       fr == FramingErrors(w0.ctl, w1.cmds, wpp, IsDrawTarget(n))
@@ -261,7 +263,9 @@ JudgeOther(sc, d, w0, w1, r) ==
 JudgeAlways(sc, d1, w0, w1, r) ==
   IF r.res # "ok" \/ r.name \in {"init", "model_init"} THEN <<>> ELSE
      Chk(r.obs.sleeping = d1.sleeping, r, {"C13"}, "is_sleeping() changed by a call other than sleep/wake, or is wrong")
-  \o Chk(w1.ctl.sleep = d1.sleeping, r, {"C13"}, "controller sleep state differs from is_sleeping()")
+  \* (a sleep/wake call that failed half-way may or may not have delivered its command: the controller's
+  \*  state is then unknown to the driver until the next successful sleep/wake)
+  \o Chk(d1.slpUnknown \/ w1.ctl.sleep = d1.sleeping, r, {"C13"}, "controller sleep state differs from is_sleeping()")
   \o Chk(r.obs.rot = d1.orient.rot /\ r.obs.mir = d1.orient.mir /\ r.obs.size = LogicalSize(sc.cfg, d1.orient), r,
          {"C10"}, "reported orientation/size differs from the last orientation set")
   \o Chk(w1.ctl.madctl = MadctlOf(sc.cfg.bgr, d1.orient, sc.cfg.refv, sc.cfg.refh), r, {"C10"},
@@ -277,7 +281,7 @@ JudgeFault(sc, d, w0, w1, r) ==
   IN
      Chk(k > 0, r, {"X"}, "harness: planned fault did not fire")
   \o Chk(r.res = "err", r, {"C12"}, "a failing pin/bus operation was not reported: " \o r.res \o " " \o r.pmsg)
-  \o Chk(r.res # "err" \/ (r.err = path /\ r.errk = sc.fault.k), r, {"C12"},
+  \o Chk(r.res # "err" \/ (r.err = path /\ r.errk = FaultK(sc, r)), r, {"C12"},
          "error not wrapped in the variant naming its source: expected " \o ToString(path) \o " got " \o ToString(r.err))
   \o Chk(w1.after = 0, r, {"C12"}, "pin or bus operations were issued after the failure")
   \o Chk(r.name \notin {"sleep", "wake"} \/ r.obs.sleeping = d.sleeping, r, {"C12", "C13"},
@@ -357,7 +361,8 @@ Step(r) ==
          v == JudgeFault(sc, d, w0, w1, r)
               \o Chk(\A c \in DOMAIN fb : InWindow(sc.cfg, c), r, {"C12"}, "the failed call modified a cell outside the panel window")
      IN [s EXCEPT !.l = @ + 1, !.w = w1, !.img = fb, !.viol = @ \o v,
-                  !.d = [d EXCEPT !.faulted = TRUE], !.stat = [st1 EXCEPT !.faults = @ + 1]]
+                  !.d = [d EXCEPT !.faulted = TRUE, !.slpUnknown = @ \/ r.name \in {"sleep", "wake"}],
+                  !.stat = [st1 EXCEPT !.faults = @ + 1]]
   ELSE IF r.name = "init" THEN
      [s EXCEPT !.l = @ + 1, !.w = w1, !.img = FbView(w1.ctl), !.viol = @ \o JudgeInit(sc, w0, w1, r), !.stat = st1,
                !.d = [D0 EXCEPT !.alive = r.res = "ok", !.orient = Orient0(sc)]]
@@ -377,8 +382,8 @@ Step(r) ==
   ELSE
      LET d1 == IF r.res # "ok" THEN d
                ELSE CASE r.name = "set_orientation" -> [d EXCEPT !.orient = [rot |-> r.args.rot, mir |-> r.args.mir], !.reoriented = TRUE]
-                      [] r.name = "sleep" -> [d EXCEPT !.sleeping = TRUE]
-                      [] r.name = "wake" -> [d EXCEPT !.sleeping = FALSE]
+                      [] r.name = "sleep" -> [d EXCEPT !.sleeping = TRUE, !.slpUnknown = FALSE]
+                      [] r.name = "wake" -> [d EXCEPT !.sleeping = FALSE, !.slpUnknown = FALSE]
                       [] OTHER -> d
      IN [s EXCEPT !.l = @ + 1, !.w = w1, !.d = d1, !.stat = st1,
                   !.viol = @ \o JudgeOther(sc, d, w0, w1, r) \o JudgeAlways(sc, d1, w0, w1, r)]
@@ -469,7 +474,8 @@ Step(r) ==
          v == JudgeFault(sc, d, w0, w1, r)
               \o Chk(\A c \in DOMAIN fb : InWindow(sc.cfg, c), r, {"C12"}, "the failed call modified a cell outside the panel window")
      IN [s EXCEPT !.l = @ + 1, !.w = w1, !.img = fb, !.viol = @ \o v,
-                  !.d = [d EXCEPT !.faulted = TRUE], !.stat = [st1 EXCEPT !.faults = @ + 1]]
+                  !.d = [d EXCEPT !.faulted = TRUE, !.slpUnknown = @ \/ r.name \in {"sleep", "wake"}],
+                  !.stat = [st1 EXCEPT !.faults = @ + 1]]
   ELSE IF r.name = "init" THEN
      [s EXCEPT !.l = @ + 1, !.w = w1, !.img = FbView(w1.ctl), !.viol = @ \o JudgeInit(sc, w0, w1, r), !.stat = st1,
                !.d = [D0 EXCEPT !.alive = r.res = "ok", !.orient = Orient0(sc)]]
@@ -489,8 +495,8 @@ Step(r) ==
   ELSE
      LET d1 == IF r.res # "ok" THEN d
                ELSE CASE r.name = "set_orientation" -> [d EXCEPT !.orient = [rot |-> r.args.rot, mir |-> r.args.mir], !.reoriented = TRUE]
-                      [] r.name = "sleep" -> [d EXCEPT !.sleeping = TRUE]
-                      [] r.name = "wake" -> [d EXCEPT !.sleeping = FALSE]
+                      [] r.name = "sleep" -> [d EXCEPT !.sleeping = TRUE, !.slpUnknown = FALSE]
+                      [] r.name = "wake" -> [d EXCEPT !.sleeping = FALSE, !.slpUnknown = FALSE]
                       [] OTHER -> d
      IN [s EXCEPT !.l = @ + 1, !.w = w1, !.d = d1, !.stat = st1,
                   !.viol = @ \o JudgeOther(sc, d, w0, w1, r) \o JudgeAlways(sc, d1, w0, w1, r)]
